@@ -883,4 +883,313 @@ theorem noWrite_loadM : NoWrite loadM := by
   apply NoWrite.bind (noWrite_tagsM atoms); intro tags
   exact NoWrite.pure _
 
+/-! ### D. save with its reads -/
+
+/-- without injected faults the save that performs the reads of `Atoms(fileobj)` continues, after them, exactly as the
+summarised save does on the same bytes (or fails with the parser's AtomError) -/
+theorem saveTagsFullM_eq {e : Env} (hq : Quiet e) (B : Nat) (ilstData : Bytes) (pad : PadChoice) (s : FS) :
+    ∃ s1, s1.data = s.data ∧ saveTagsFullM B ilstData pad e s = saveTagsM B ilstData pad e s1 := by
+  obtain ⟨s1, h1, h2⟩ := atomsM_q hq s
+  refine ⟨s1, h2, ?_⟩
+  unfold saveTagsFullM saveTagsM
+  simp only [bind_run, h1, peek, h2]
+  cases parse s.data with
+  | error x => rfl
+  | ok atoms => rfl
+
+/-- C19 for the save with its reads, every capacity: ENOSPC with the file byte-identical, or the pure model's outcome and bytes -/
+theorem saveTagsFullM_q {e : Env} (hq : Quiet e) (B : Nat) (hB : 0 < B) (ilstData : Bytes) (pad : PadChoice) (s : FS) :
+    (∃ s', saveTagsFullM B ilstData pad e s = (.error .enospc, s') ∧ s'.data = s.data) ∨
+    (∃ s', saveTagsFullM B ilstData pad e s = (toExcept (saveTags true s.data ilstData pad).1, s') ∧
+      s'.data = (saveTags true s.data ilstData pad).2) := by
+  obtain ⟨s1, hd, heq⟩ := saveTagsFullM_eq hq B ilstData pad s
+  rw [heq, ← hd]
+  exact saveTagsM_q hq B hB ilstData pad s1
+
+/-! ### E. a normal return means nothing was injected and no read came back short -/
+
+/-- the environment with its injected exceptions and short reads removed -/
+def Env.calm (e : Env) : Env := { e with failAt := fun _ => none, shortAt := fun _ => none }
+
+theorem calm_quiet (e : Env) : Quiet (Env.calm e) := ⟨fun _ => rfl, fun _ => rfl⟩
+
+/-- if the program returns normally, it returns the same value and state in the calm environment -/
+def OkCalm {α : Type} (m : FileM α) : Prop := ∀ e s a s', m e s = (.ok a, s') → m (Env.calm e) s = (.ok a, s')
+
+theorem OkCalm.pure {α : Type} (a : α) : OkCalm (pure a : FileM α) := by
+  intro e s b s' h; simpa using h
+theorem OkCalm.raise {α : Type} (x : PyErr) : OkCalm (raise x : FileM α) := by
+  intro e s b s' h; simp at h
+theorem OkCalm.bind {α β : Type} {m : FileM α} {f : α → FileM β} (hm : OkCalm m) (hf : ∀ a, OkCalm (f a)) :
+    OkCalm (m >>= f) := by
+  intro e s b s' h
+  simp only [bind_run] at h ⊢
+  cases hms : m e s with
+  | mk r s1 =>
+    rw [hms] at h
+    cases r with
+    | ok a => rw [hm e s a s1 hms]; exact hf a e s1 b s' h
+    | error x => simp at h
+theorem OkCalm.tick (o : Op) : OkCalm (tick o) := by
+  intro e s a s' h
+  unfold Mutagen.tick at h ⊢
+  split at h
+  · simp at h
+  · simpa [Env.calm] using h
+theorem OkCalm.fseek (p : Nat) : OkCalm (fseek p) :=
+  OkCalm.bind (OkCalm.tick _) fun _ => by intro e s a s' h; exact h
+theorem OkCalm.fseekRel (p : Nat) : OkCalm (fseekRel p) :=
+  OkCalm.bind (OkCalm.tick _) fun _ => by intro e s a s' h; exact h
+theorem OkCalm.fseekEnd : OkCalm fseekEnd :=
+  OkCalm.bind (OkCalm.tick _) fun _ => by intro e s a s' h; exact h
+theorem OkCalm.ftell : OkCalm ftell :=
+  OkCalm.bind (OkCalm.tick _) fun _ => by intro e s a s' h; exact h
+theorem OkCalm.convertError {α : Type} {m : FileM α} (src : PyErr → Bool) (dst : PyErr) (hm : OkCalm m) :
+    OkCalm (convertError src dst m) := by
+  intro e s a s' h
+  have := convertError_ok src dst m e s s' a h
+  exact convertError_of_ok _ _ _ _ _ _ _ (hm e s a s' this)
+theorem OkCalm.tryRaise {α : Type} {m : FileM α} (pred : PyErr → Bool) (y : PyErr) (hm : OkCalm m) :
+    OkCalm (tryCatch m pred (fun _ => Mutagen.raise y)) := by
+  intro e s a s' h
+  unfold Mutagen.tryCatch at h ⊢
+  cases hms : m e s with
+  | mk r s1 =>
+    rw [hms] at h
+    cases r with
+    | ok b =>
+      simp only [Prod.mk.injEq, Except.ok.injEq] at h
+      rw [hm e s b s1 hms]
+      simp only [h.1, h.2]
+    | error x => simp only at h; split at h <;> simp [raise_run] at h
+
+/-- a read whose length is checked: a normal return means the read was complete, in the calm environment too -/
+theorem OkCalm.readChecked {α : Type} (n : Nat) (x : PyErr) (k : Bytes → FileM α) (hk : ∀ d, OkCalm (k d)) :
+    OkCalm (fread n >>= fun d => if d.length < n then Mutagen.raise x else k d) := by
+  intro e s a s' h
+  simp only [bind_run] at h ⊢
+  unfold Mutagen.fread at h ⊢
+  simp only at h ⊢
+  cases ht : Mutagen.tick (.read n) e s with
+  | mk r s1 =>
+    rw [ht] at h
+    cases r with
+    | error y => simp at h
+    | ok u =>
+      have ht' := OkCalm.tick (.read n) e s () s1 ht
+      rw [ht']
+      simp only at h ⊢
+      have hcalm : (Env.calm e).shortAt s.ops = none := rfl
+      simp only [hcalm]
+      have key : ∀ lim, lim ≤ n →
+          ((if (readAt s1.data s1.pos lim).length < n then Mutagen.raise x else k (readAt s1.data s1.pos lim)) e
+            { data := s1.data, pos := s1.pos + (readAt s1.data s1.pos lim).length, ops := s1.ops, log := s1.log } = (Except.ok a, s')) →
+          ((if (readAt s1.data s1.pos n).length < n then Mutagen.raise x else k (readAt s1.data s1.pos n)) (Env.calm e)
+            { data := s1.data, pos := s1.pos + (readAt s1.data s1.pos n).length, ops := s1.ops, log := s1.log } = (Except.ok a, s')) := by
+        intro lim hle h2
+        clear h
+        by_cases hsh : (readAt s1.data s1.pos lim).length < n
+        · simp only [hsh, ↓reduceIte, raise_run] at h2; simp at h2
+        · simp only [hsh, ↓reduceIte] at h2
+          have hl : (readAt s1.data s1.pos lim).length = min lim (s1.data.length - s1.pos) := length_readAt' _ _ _
+          have hlim' : lim = n := by omega
+          subst hlim'
+          simp only [hsh, ↓reduceIte]
+          exact hk _ e _ a s' h2
+      cases hsa : e.shortAt s.ops with
+      | none =>
+        simp only [hsa] at h
+        exact key n (Nat.le_refl _) h
+      | some kk =>
+        simp only [hsa] at h
+        exact key (min kk n) (Nat.min_le_right _ _) h
+
+theorem okCalm_atomReadThen {α : Type} (at' : PAtom) (x : PyErr) (k : Bytes → FileM α) (hk : ∀ d, OkCalm (k d)) :
+    OkCalm (atomReadM at' >>= fun o => match o with | none => Mutagen.raise x | some d => k d) := by
+  have h1 : ∀ (d0 : Unit), OkCalm (fread (at'.length - (at'.dataoffset - at'.offset)) >>= fun d =>
+      if d.length < at'.length - (at'.dataoffset - at'.offset) then (Mutagen.raise x : FileM α) else
+        (if d.length = at'.length - (at'.dataoffset - at'.offset) then k d else Mutagen.raise x)) := by
+    intro _
+    apply OkCalm.readChecked
+    intro d
+    split
+    · exact hk d
+    · exact OkCalm.raise _
+  have key : ∀ (e : Env) (s : FS), (atomReadM at' >>= fun o => match o with | none => Mutagen.raise x | some d => k d) e s =
+      (fseek at'.dataoffset >>= fun _ => fread (at'.length - (at'.dataoffset - at'.offset)) >>= fun d =>
+        if d.length < at'.length - (at'.dataoffset - at'.offset) then (Mutagen.raise x : FileM α) else
+          (if d.length = at'.length - (at'.dataoffset - at'.offset) then k d else Mutagen.raise x)) e s := by
+    intro e s
+    unfold atomReadM
+    simp only [bind_run, pure_run]
+    cases fseek at'.dataoffset e s with
+    | mk r1 s1 =>
+      cases r1 with
+      | error y => rfl
+      | ok u =>
+        simp only
+        cases fread (at'.length - (at'.dataoffset - at'.offset)) e s1 with
+        | mk r2 s2 =>
+          cases r2 with
+          | error y => rfl
+          | ok d =>
+            simp only
+            by_cases hlt : d.length < at'.length - (at'.dataoffset - at'.offset)
+            · have hne : ¬ d.length = at'.length - (at'.dataoffset - at'.offset) := by omega
+              simp [hlt, hne]
+            · by_cases heq : d.length = at'.length - (at'.dataoffset - at'.offset)
+              · simp [hlt, heq]
+              · simp [hlt, heq]
+  intro e s a s' h
+  rw [key] at h ⊢
+  exact OkCalm.bind (OkCalm.fseek _) h1 e s a s' h
+
+theorem okCalm_atomM : ∀ fuel : Nat, (∀ level, OkCalm (atomM fuel level)) ∧ (∀ stop level, OkCalm (kidsM fuel stop level)) := by
+  intro fuel
+  induction fuel with
+  | zero =>
+    refine ⟨fun level => ?_, fun stop level => ?_⟩
+    · unfold atomM; exact OkCalm.raise _
+    · unfold kidsM; exact OkCalm.raise _
+  | succ fuel ih =>
+    obtain ⟨ihA, ihK⟩ := ih
+    refine ⟨fun level => ?_, fun stop level => ?_⟩
+    · unfold atomM
+      apply OkCalm.convertError
+      apply OkCalm.bind OkCalm.ftell; intro pos
+      apply OkCalm.readChecked
+      intro hdr
+      simp only []
+      apply OkCalm.bind
+      · split
+        · apply OkCalm.readChecked
+          intro ext
+          split
+          · exact OkCalm.raise _
+          · exact OkCalm.pure _
+        · split
+          · split
+            · exact OkCalm.raise _
+            · apply OkCalm.bind OkCalm.fseekEnd; intro _
+              apply OkCalm.bind OkCalm.ftell; intro size
+              apply OkCalm.bind (OkCalm.fseek _); intro _
+              exact OkCalm.pure _
+          · split
+            · exact OkCalm.raise _
+            · exact OkCalm.pure _
+      · intro ld
+        split
+        · split
+          · exact OkCalm.raise _
+          · apply OkCalm.bind (OkCalm.fseekRel _); intro _
+            apply OkCalm.bind (ihK _ _); intro kids
+            exact OkCalm.pure _
+        · apply OkCalm.bind (OkCalm.fseek _); intro _
+          exact OkCalm.pure _
+    · unfold kidsM
+      apply OkCalm.bind OkCalm.ftell; intro t
+      split
+      · apply OkCalm.bind (ihA level); intro a
+        apply OkCalm.bind (ihK stop level); intro r
+        exact OkCalm.pure _
+      · exact OkCalm.pure _
+
+theorem okCalm_topM : ∀ fuel endd, OkCalm (topM fuel endd) := by
+  intro fuel
+  induction fuel with
+  | zero => intro endd; unfold topM; exact OkCalm.raise _
+  | succ fuel ih =>
+    intro endd
+    unfold topM
+    apply OkCalm.bind OkCalm.ftell; intro t
+    split
+    · apply OkCalm.bind ((okCalm_atomM fuel).1 0); intro a
+      apply OkCalm.bind (ih endd); intro r
+      exact OkCalm.pure _
+    · exact OkCalm.pure _
+
+theorem okCalm_atomsM : OkCalm atomsM := by
+  unfold atomsM
+  apply OkCalm.convertError
+  apply OkCalm.bind OkCalm.fseekEnd; intro _
+  apply OkCalm.bind OkCalm.ftell; intro endd
+  apply OkCalm.bind (OkCalm.fseek _); intro _
+  exact okCalm_topM _ _
+
+theorem okCalm_findAudioTrakM : ∀ l, OkCalm (findAudioTrakM l) := by
+  intro l
+  induction l with
+  | nil => unfold findAudioTrakM; exact OkCalm.pure _
+  | cons t r ih =>
+    unfold findAudioTrakM
+    split
+    · split
+      · exact OkCalm.raise _
+      · apply okCalm_atomReadThen
+        intro data
+        split
+        · exact OkCalm.pure _
+        · exact ih
+    · exact ih
+
+theorem okCalm_childrenM : ∀ l, OkCalm (childrenM l) := by
+  intro l
+  induction l with
+  | nil => unfold childrenM; exact OkCalm.pure _
+  | cons a r ih =>
+    unfold childrenM
+    apply okCalm_atomReadThen
+    intro d
+    apply OkCalm.bind ih; intro rest
+    exact OkCalm.pure _
+
+theorem okCalm_infoM (atoms : List PAtom) : OkCalm (infoM atoms) := by
+  unfold infoM
+  apply OkCalm.tryRaise
+  split
+  · exact OkCalm.raise _
+  · apply OkCalm.bind (okCalm_findAudioTrakM _); intro ot
+    split
+    · exact OkCalm.pure _
+    · split
+      · exact OkCalm.raise _
+      · apply okCalm_atomReadThen
+        intro data
+        split
+        · exact OkCalm.raise _
+        · simp only []
+          split
+          · exact OkCalm.pure _
+          · apply okCalm_atomReadThen
+            intro sd
+            split
+            · exact OkCalm.raise _
+            · exact OkCalm.pure _
+
+theorem okCalm_tagsM (atoms : List PAtom) : OkCalm (tagsM atoms) := by
+  unfold tagsM
+  split
+  · exact OkCalm.pure _
+  · apply OkCalm.tryRaise
+    split
+    · exact OkCalm.raise _
+    · apply OkCalm.bind (okCalm_childrenM _); intro cs
+      exact OkCalm.pure _
+
+theorem okCalm_loadM : OkCalm loadM := by
+  unfold loadM
+  apply OkCalm.bind okCalm_atomsM; intro atoms
+  apply OkCalm.bind (okCalm_infoM atoms); intro info
+  apply OkCalm.bind (okCalm_tagsM atoms); intro tags
+  exact OkCalm.pure _
+
+/-- a normal return of `MP4(fileobj)` — whatever exceptions the environment would have injected elsewhere, whatever reads
+it would have cut short — is the pure load of the complete bytes: no short read is taken for the end of the file -/
+theorem loadM_ok_means_loaded (e : Env) (s s' : FS) (r : Loaded) (h : loadM e s = (.ok r, s')) :
+    loadPure s.data = .ok r := by
+  have h1 := okCalm_loadM e s r s' h
+  obtain ⟨s2, h2, _⟩ := loadM_q (calm_quiet e) s
+  rw [h2] at h1
+  exact (Prod.mk.inj h1).1
+
 end Mutagen.Mp4C
